@@ -319,7 +319,7 @@ spec("C20",
      cmd="c20", count=dict(quick=400, thorough=10000),
      vo_targets=["props/C20.vo"],
      level="proof",
-     rule="DAGs with 0-220+ choice clauses of all four kinds (RegReg and RegImm forms), 1-4 outputs; interpreter (N=255) and JIT point + interval tracing evaluators on one point and one box; float/grad slice lengths {0,1,3,7,8,9,15,16,17,33}; distinct_nontrivial = distinct arenas with at least 2 choice clauses",
+     rule="DAGs with 0-220+ choice clauses of all four kinds (RegReg and RegImm forms), 1-4 outputs; interpreter (N=255) and JIT point + interval tracing evaluators on one point and one box; float/grad slice lengths {0,1,3,7,8,9,15,16,17,33}; distinct_nontrivial = distinct arenas with at least 2 choice clauses; the same tapes on tracing evaluators that live for the whole run (another box / point first) must give a fresh evaluator's trace",
      classify=classify_default,
      assumptions=["JIT interval trace entries may be the more conservative Both relative to the model's (its interval arithmetic may be wider); JIT point traces must equal the interpreter's"],
      )
@@ -328,7 +328,7 @@ spec("C06",
      cmd="c06", count=dict(quick=220, thorough=4000),
      vo_targets=["props/C06.vo"],
      level="proof",
-     rule="case 0: the bundled hi.vm model plus the corpus of tile-size lists the constructor must reject or render ([0], [8,0], [1], [5]); then 2D CSG of circles / rectangles / rotated shapes (60%) or random expressions (choice-heavy 60%, up to 30 operations); image sizes 1..96 per axis (non-square, 95% not multiples of the root tile), valid tile-size lists of 1..4 levels with factors 2,3,4,8 and last size 1,2,3,4,5,8, view transforms (identity / scale / translate+scale / rotate+scale), slice height 0 or random, pixel-perfect 35%, interpreter and JIT, no pool / global pool / custom pools of 1..8 threads; every pixel of every image is compared with operation-by-operation evaluation at its sample position (value bits in pixel-perfect mode, inside() otherwise; a Fill on the wrong side counts unless the value is within 1e-4 of zero relative to the largest intermediate); images of at most 1600 pixels are also rendered by the f32 instance of the Coq model and compared pixel for pixel including Fill depths; distinct_nontrivial = distinct configurations",
+     rule="case 0: the bundled hi.vm model plus the corpus of tile-size lists the constructor must reject or render ([0], [8,0], [1], [5]); then 2D CSG of circles / rectangles / rotated shapes (60%) or random expressions (choice-heavy 60%, up to 30 operations); image sizes 1..96 per axis (non-square, 95% not multiples of the root tile), valid tile-size lists of 1..4 levels with factors 2,3,4,8 and last size 1,2,3,4,5,8, view transforms (identity / scale / translate+scale / rotate+scale), slice height 0 or random, pixel-perfect 35%, interpreter and JIT, no pool / global pool / custom pools of 1..8 threads; every pixel of every image is compared with operation-by-operation evaluation at its sample position (value bits in pixel-perfect mode, inside() otherwise; a Fill on the wrong side counts unless the value is within 1e-4 of zero relative to the largest intermediate); images of at most 1600 pixels are also rendered by the f32 instance of the Coq model and compared pixel for pixel including Fill depths; distinct_nontrivial = distinct configurations; every third case also renders with the 3-register interpreter; case 1 renders x + NaN for all 256 payload classes of the NaN (a NaN value is a value pixel, never a fill, never inside)",
      classify=classify_backend,
      assumptions=["the theorems take interval enclosure (C03) and value preservation under simplification (C04) as hypotheses about the evaluators; their f32 instance is validated by the bit-exact replay",
                   "JIT images are judged by the oracle only (its interval arithmetic may legitimately be wider, giving different Fill decisions)"],
@@ -357,7 +357,7 @@ spec("C09",
      cmd="c09", count=dict(quick=160, thorough=4000),
      vo_targets=["props/C09.vo"],
      level="proof",
-     rule="cases cycle through 2D render / 3D render / mesh / one tape evaluated from 12 threads at once, interpreter or JIT at random; each workload: reference without a pool (twice), three custom pools out of {1,2,3,4,5,8,12,16} threads run twice each with the schedule-point hook injecting yields and sleeps of up to 150us keyed to the task / poll number (different seed per run), the global pool, then cancellation injected through the hook at exact poll numbers {1, middle, last, random} with no pool / 2 / 4 threads, cancellation before the start, and a never-cancelled run under jitter; results compared bit for bit (images) or as sorted sets of oriented triangles over vertex bit patterns (meshes); task counts (raster root tiles after TileSizesRef trimming, octree tasks after the breadth-first expansion) and one-poll-per-tile are compared with the Coq model; distinct_nontrivial = cases (each a fresh shape and configuration)",
+     rule="cases cycle through 2D render / 3D render / mesh / one tape evaluated from 12 threads at once, interpreter or JIT at random; each workload: reference without a pool (twice), three custom pools out of {1,2,3,4,5,8,12,16} threads run twice each with the schedule-point hook injecting yields and sleeps of up to 150us keyed to the task / poll number (different seed per run), the global pool, then cancellation injected through the hook at exact poll numbers {1, middle, last, random} with no pool / 2 / 4 threads, cancellation before the start, and a never-cancelled run under jitter; results compared bit for bit (images) or as sorted sets of oriented triangles over vertex bit patterns (meshes); task counts (raster root tiles after TileSizesRef trimming, octree tasks after the breadth-first expansion) and one-poll-per-tile are compared with the Coq model; distinct_nontrivial = cases (each a fresh shape and configuration); a quarter of the interpreter cases use the 3-register interpreter",
      classify=classify_backend,
      assumptions=["data races inside a task, rayon's own correctness and the memory ordering of the relaxed cancel flag are outside the model; they are exercised by the perturbed differential runs only",
                   "a late-observed flag only moves the cancellation moment later in the time order, which the theorems quantify over"],
@@ -367,7 +367,7 @@ spec("C10",
      cmd="c10", count=dict(quick=300, thorough=6000),
      vo_targets=["props/C10.vo"],
      level="proof",
-     rule="random histories (5-40 steps) over 3-6 functions of different shapes with ONE long-lived point/interval/float-slice/grad-slice evaluator, one workspace, recycled function storage and recycled tape storage (JIT: Mmap), steps in {point, interval, slice(n), grad(n), simplify, recycle+rebuild}; every step is compared bit-for-bit with a twin using fresh objects; backends interpreter N=4, N=255 and x86_64 JIT; evaluations = histories, distinct_nontrivial = histories (each has its own random functions)",
+     rule="random histories (5-40 steps) over 3-6 functions of different shapes with ONE long-lived point/interval/float-slice/grad-slice evaluator, one workspace, recycled function storage and recycled tape storage (JIT: Mmap), steps in {point, interval, slice(n), grad(n), simplify, recycle+rebuild}; every step is compared bit-for-bit with a twin using fresh objects; backends interpreter N=4, N=255 and x86_64 JIT; evaluations = histories, distinct_nontrivial = histories (each has its own random functions); half of the functions carry an operation with the same (early, by then spilled) node on both sides, read once more at the end; budgets 3, 4, 255 and the JIT; every history opens with trace-then-simplify on each function in turn",
      classify=classify_default,
      assumptions=["the history check is an oracle run on the implementation (differential against fresh objects); the theorems cover reset = new and stale-content independence of the modelled evaluators"],
      )
@@ -376,7 +376,7 @@ spec("C14",
      cmd="c14", count=dict(quick=1500, thorough=60000),
      vo_targets=["props/C14.vo"],
      level="proof",
-     rule="single-root expressions (up to 40 operations, choice-heavy half of the time) over a random subset of X, Y, Z and 0..24 free variables created in one random order, folded into the root in another and supplied in a third; supplied table exact / with 1..4 extra variables / with one variable missing; no transform / affine / projective 4x4 matrices (incl. w = 0); VM point evaluation through ShapeTracingEval::eval_raw: the tape's variable order, the transformed position and the result (or the missing-variable error) must equal the Coq model (flatten + allocate + slot filling in the implementation's own map iteration order + tape run) bit for bit; oracle: direct operation-by-operation evaluation with an explicit binding, JIT point, float-slice with scalar variables and with per-sample variable arrays, gradient value lane, degenerate-box interval (VM and JIT), and the shape simplified on a box around the point (same value, no variable renumbered); distinct_nontrivial = distinct case lines",
+     rule="single-root expressions (up to 40 operations, choice-heavy half of the time) over a random subset of X, Y, Z and 0..24 free variables created in one random order, folded into the root in another and supplied in a third; supplied table exact / with 1..4 extra variables / with one variable missing; no transform / affine / projective 4x4 matrices (incl. w = 0); VM point evaluation through ShapeTracingEval::eval_raw: the tape's variable order, the transformed position and the result (or the missing-variable error) must equal the Coq model (flatten + allocate + slot filling in the implementation's own map iteration order + tape run) bit for bit; oracle: direct operation-by-operation evaluation with an explicit binding, JIT point, float-slice with scalar variables and with per-sample variable arrays, gradient value lane, degenerate-box interval (VM and JIT), and the shape simplified on a box around the point (same value, no variable renumbered); distinct_nontrivial = distinct case lines; the same evaluation on evaluators that live for the whole run (every earlier shape dropped) must equal a fresh evaluator's; one case in six has a variable missing AND 28..40 unrelated extras; Shape::bind is compared with the model of ShapeVars::check over the map's own iteration order (accepted exactly when complete, which variable is named)",
      classify=classify_backend,
      assumptions=["the sign of a zero result is not compared across evaluator kinds (min/max zero sign is code-generation dependent, see C02)",
                   "projective transforms with w = 0 at the point are compared for the point evaluator only (no transformed position exists)"],
@@ -387,7 +387,7 @@ spec("C15",
      vo_targets=["props/C15.vo"],
      post=[post_validate_bytecode],
      level="proof",
-     rule="random DAGs (1-100 ops, 1-4 outputs, 0-5 free vars) at register budgets {3,4,8,255} (small budgets force Load/Store = Mem ops), 3 points each; distinct_nontrivial = distinct bytecode word streams",
+     rule="random DAGs (1-100 ops, 1-4 outputs, 0-5 free vars) at register budgets {3,4,8,255} (small budgets force Load/Store = Mem ops), 3 points each; distinct_nontrivial = distinct bytecode word streams; history: storage that was serialized as part of another function is recycled into a simplification, whose bytecode must equal the one from fresh storage",
      classify=classify_default,
      assumptions=["the Rust documentation-only interpreter (oracle) and the Coq decoder are both written from the module docs: opcode table from iter_ops / regenerated enum order"],
      )
@@ -397,7 +397,7 @@ spec("C11",
      cmd="c11", count=dict(quick=1500, thorough=30000),
      vo_targets=["props/C11.vo"],
      level="proof",
-     rule="60% overflow-prone compositions (square/mul by 1e30/exp/div/recip/ln/sqrt/tan/mod/atan2 chains), 40% general DAGs; points and boxes with finite coordinates up to f32::MAX; every evaluator kind (point, interval, float slice, grad slice, shape-level with a transform matrix) of interpreter and JIT in child processes; a malformed-argument round every 10th case; interpreter interval results compared with the model (value or panic); distinct_nontrivial = distinct arenas",
+     rule="60% overflow-prone compositions (square/mul by 1e30/exp/div/recip/ln/sqrt/tan/mod/atan2 chains), 40% general DAGs; points and boxes with finite coordinates up to f32::MAX; every evaluator kind (point, interval, float slice, grad slice, shape-level with a transform matrix) of interpreter and JIT in child processes; a malformed-argument round every 10th case; interpreter interval results compared with the model (value or panic); distinct_nontrivial = distinct arenas; a trace that comes back contains no Unknown and simplify accepts it; an empty batch on fresh bulk evaluators gives one empty result per output (function level and shape wrapper)",
      classify=classify_backend,
      assumptions=["a fault or abort in JIT code is observed through the child process exit status",
                   "the interval totality theorems over the idealised (unrounded) arithmetic are in IntervalSound (see C03); the f32 instance is tied by correspondence"],
@@ -418,7 +418,7 @@ spec("C02",
      cmd="c02", count=dict(quick=600, thorough=12000),
      vo_targets=["props/C02.vo"],
      level="proof",
-     rule="random DAGs (1-60 ops, every opcode, 0-5 free variables; chains and wide DAGs so that 12 JIT registers spill and libm calls interleave with live registers) with every non-constant node exported (last 40); 40 points per case drawn from tame values / 40% specials (NaN, +-0, +-inf, denormals, f32::MAX, pi multiples) / mixed magnitudes; JIT point evaluator and JIT float-slice evaluator for EVERY slice length 0..=35 (SIMD width 8) against the interpreter, caller slices placed against PROT_NONE guard pages (alternately at the start and at the end); child processes; distinct_nontrivial = distinct arenas",
+     rule="random DAGs (1-60 ops, every opcode, 0-5 free variables; chains and wide DAGs so that 12 JIT registers spill and libm calls interleave with live registers) with every non-constant node exported (last 40); 40 points per case drawn from tame values / 40% specials (NaN, +-0, +-inf, denormals, f32::MAX, pi multiples) / mixed magnitudes; JIT point evaluator and JIT float-slice evaluator for EVERY slice length 0..=35 (SIMD width 8) against the interpreter, caller slices placed against PROT_NONE guard pages (alternately at the start and at the end); child processes; distinct_nontrivial = distinct arenas; one case in six has 30..100 further variables, all read (displacements beyond one signed byte); rounding-edge and subnormal inputs; a difference in the sign of a zero is tolerated at every node computed from a min / max of opposite zeros and nowhere else",
      classify=classify_default,
      assumptions=["comparison rule = the property's: bit-identical, NaN matches NaN, min/max of two equal zeros may differ in sign (such points are then skipped downstream)",
                   "points where a NaN reaches rand/mix are skipped (NaN payloads feed the hash)",
@@ -429,7 +429,7 @@ spec("C05",
      cmd="c05", count=dict(quick=800, thorough=15000),
      vo_targets=["props/C05.vo"],
      level="proof",
-     rule="random DAGs (1-30 ops, all opcodes except the bit-hash ones, every non-constant node exported), 4 points (3 tame, 1 with special values), unit-axis seeds on the first point and arbitrary non-unit seeds on the others; interpreter grad-slice results bit-for-bit against the model; per node: value lane vs point evaluator, and the f64 chain rule from the operand duals the evaluator itself reported (local obligation; skipped near ties / zeros / integers / poles / branch cuts and for magnitudes above 1e15), interpreter and JIT; Context::deriv of the last node evaluated at the point vs forward mode with unit seeds where the whole chain is differentiable; distinct_nontrivial = distinct arenas with > 2 exported nodes",
+     rule="random DAGs (1-30 ops, all opcodes except the bit-hash ones, every non-constant node exported), 4 points (3 tame, 1 with special values), unit-axis seeds on the first point and arbitrary non-unit seeds on the others; interpreter grad-slice results bit-for-bit against the model; per node: value lane vs point evaluator, and the f64 chain rule from the operand duals the evaluator itself reported (local obligation; skipped near ties / zeros / integers / poles / branch cuts and for magnitudes above 1e15), interpreter and JIT; Context::deriv of the last node evaluated at the point vs forward mode with unit seeds where the whole chain is differentiable; distinct_nontrivial = distinct arenas with > 2 exported nodes; the same tapes allocated into 3 and 4 registers must give the interpreter's rows bit for bit; for a box around the first point the function is simplified with its own interval trace (interpreter and JIT) and the gradient of the simplified function compared with the original's at that point (outputs whose original value is NaN left out)",
      classify=classify_backend,
      assumptions=["tolerance 2e-4 relative to the magnitude of the chain-rule terms for derivative lanes, 1e-4 for values, 2e-3 for the symbolic derivative (evaluated in f32)",
                   "the derivative theorems over the reals (GradSound) are in progress; the theorem here covers the value lane for every tape"],
@@ -447,8 +447,9 @@ spec("C13",
      cmd="c13", count=dict(quick=1000, thorough=20000),
      vo_targets=["props/C13.vo"],
      level="proof",
-     rule="random Trees with 1-6 remaps (remap_xyz by arbitrary expressions, remap_affine by translations / non-uniform scales incl. negative / rotations / general affine matrices; consecutive affines exercise the flattening; shared subtrees under several frames; free variables) imported into a fresh Context: node and arena compared with the Coq model of Context::import, and the value compared with the substitution semantics evaluated directly on the tree at 4 points; distinct_nontrivial = distinct case lines",
+     rule="random Trees with 1-6 remaps (remap_xyz by arbitrary expressions, remap_affine by translations / non-uniform scales incl. negative and tiny (1e-4 .. 1e-8) / rotations incl. by 5e-8 rad / shears / general affine matrices; consecutive affines exercise the flattening; shared subtrees under several frames; free variables) imported into a fresh Context: node and arena compared with the Coq model of Context::import, the value compared with the substitution semantics evaluated directly on the tree at 4 points, and the matrix Tree::remap_affine stores after two consecutive calls compared bit for bit with the model's product (Expr.aff_mul, proved to be the 4x4 product in Affine4.v); distinct_nontrivial = distinct case lines",
      classify=classify_default,
+     diff_is_failing_input=True,
      assumptions=["nested RemapAffine directly under RemapAffine cannot be built through the builder API (remap_affine flattens) and is not generated"],
      )
 
@@ -468,7 +469,7 @@ spec("C17",
      soft_sections=["cls"],
      diff_is_failing_input=True,
      level="proof",
-     rule="first the call-form oracle on the engine alone: for each of the 26 shapes (3 rounds of random field values) the map form must agree with the chained / transform form (defaults omitted), reducers with 1..8 individual trees and with an array must agree with the array in a map, and the positional form in a shuffled order must agree with the map form; then scripts from the grammar: x y z, integer / float literals, + - * / % and unary minus with the number on either side, min max compare mix and or atan2 and the 15 unary functions in call and method spelling, remap with 2 / 3 axes, arrays of trees added to trees, comparisons (6% of cases), shape constructors chosen uniformly from the reflection table with each defaulted field present 60% of the time and a required field missing 4% of the time, in map form (keys shuffled, 4% an unknown key), chained transform form, or positional (field order or shuffled, call or method on the first argument); values: ints / floats, arrays or vecN(..) for vectors (vec3 from 2 or 3 components), strings / bare axes / axis-aligned arrays for axes, names or plane(axis, n) for planes, nested up to depth 4; rotation matrices for every axis / angle a rotate call can use are computed with nalgebra and passed to the model as data; the tree of engine().eval::<Tree>(script), or the fact that it is an error, must equal the Coq model's (the error class is compared too but only recorded: in a script with several faulty sub-expressions the one reported first depends on rhai's argument evaluation order); a 16-script corpus of documented forms and predicted surprises runs first; distinct_nontrivial = distinct scripts",
+     rule="first the call-form oracle on the engine alone: for each of the 26 shapes (3 rounds of random field values) the map form must agree with the chained / transform form (defaults omitted), reducers with 1..8 individual trees and with an array must agree with the array in a map, and the positional form in a shuffled order must agree with the map form; then scripts from the grammar: x y z, integer / float literals, + - * / % and unary minus with the number on either side, min max compare mix and or atan2 and the 15 unary functions in call and method spelling, remap with 2 / 3 axes, arrays of trees added to trees, comparisons (6% of cases), shape constructors chosen uniformly from the reflection table with each defaulted field present 60% of the time and a required field missing 4% of the time, in map form (keys shuffled, 4% an unknown key), chained transform form, or positional (field order or shuffled, call or method on the first argument); values: ints / floats, arrays or vecN(..) for vectors (vec3 from 2 or 3 components), strings / bare axes / axis-aligned arrays for axes, names or plane(axis, n) for planes, nested up to depth 4; rotation matrices for every axis / angle a rotate call can use are computed with nalgebra and passed to the model as data; the tree of engine().eval::<Tree>(script), or the fact that it is an error, must equal the Coq model's (the error class is compared too but only recorded: in a script with several faulty sub-expressions the one reported first depends on rhai's argument evaluation order); a 16-script corpus of documented forms and predicted surprises runs first; distinct_nontrivial = distinct scripts; vec2 objects for vec3 fields, nested arrays inside tree arrays; 60 let-substitution pairs (`let N = v; body` against body with (v) written for N, N ranging over ordinary names and the names of the built-in constants, also as a function parameter)",
      classify=classify_default,
      assumptions=["statements, let, loops, user functions, f64 libm on numbers and string formatting are outside the model (it answers 'outside the model' and the case is not compared)",
                   "the script text is printed by the harness from the same AST whose wire form the model parses; the model's own printer is proved to produce source for that AST but is not what the engine is fed"],
@@ -488,7 +489,7 @@ spec("C19",
      cmd="c19", count=dict(quick=300, thorough=4000),
      vo_targets=["props/C19.vo"],
      level="proof",
-     rule="consistent diagonally-dominant linear systems with n in {1..8,10,13,16,25,40} unknowns (half-integer solutions, integer coefficients, each equation over a different subset of the variables), every variable free / every variable fixed / a random 35% fixed at their true values, starts perturbed or exactly satisfied; interpreter and JIT; through the verif hook the Jacobian must equal the coefficient matrix exactly and the seed rows are compared with the Coq model's seed table; distinct_nontrivial = systems (each has fresh variables and random coefficients)",
+     rule="consistent diagonally-dominant linear systems with n in {1..8,10,13,16,25,40} unknowns (half-integer solutions, integer coefficients, each equation over a different subset of the variables), every variable free / every variable fixed / a random 35% fixed at their true values, starts perturbed or exactly satisfied; interpreter and JIT; through the verif hook the Jacobian must equal the coefficient matrix exactly and the seed rows are compared with the Coq model's seed table; distinct_nontrivial = systems (each has fresh variables and random coefficients); a third of the systems have coefficients times 2^10 .. 2^25 and unknowns divided by it; 30% carry one or two parameters that occur in no equation (free ones must get a value, fixed ones must not); the f32 instance of the modelled exit test is evaluated on the hook's Jacobian / residuals at the start and must agree with solve() returning the start unchanged; every solve under a 5-minute watchdog",
      classify=classify_backend,
      assumptions=["convergence (residual <= 1e-3) is an observation on well-conditioned systems, not a theorem: the SVD / Levenberg-Marquardt core is abstract in the model"],
      )
